@@ -48,6 +48,10 @@ def run(res):
     res.cov["translator"] = {"files": st, "shapes": {k: v for k, v in shapes.items() if k.startswith(("srvstorage/", "binding/"))}}
     pr = vlib.coq_check_props("Props/C09.v", runners=[sl.RUNNER])
     res.add_proof(pr, CHECKER)
+    if res.tier == "thorough" and pr["ok"]:
+        probs = sl.thorough_extras(res, "Props/C09.v")
+        if probs:
+            pr["ok"], pr["failed_file"], pr["error"] = False, "Props/C09.v", "; ".join(probs)
     res.cov["trusted_base"] = vlib.TRUSTED_BASE_COMMON + [
         "assumed, not modelled: a completed engine Set/Del is durable and atomic (badger SyncWrites / buntdb SyncPolicy Always: see C04's generated obligations)",
         "modelled, not verified: the engine as an ordered byte-keyed map; binding argument tables as opaque byte strings (the codec component owns tables); Go map iteration order ignored (GetVhosts compared as a map)",
